@@ -9,6 +9,8 @@ package main
 
 import (
 	"fmt"
+
+	"golang.org/x/tools/go/packages"
 	"os"
 	"os/exec"
 	"path/filepath"
@@ -16,6 +18,19 @@ import (
 )
 
 func tvDir(id string) string { return filepath.Join(verifRoot, "work", "tv", id) }
+
+// tvCompileError: the compiler of the current tree rejected a template (all templates are valid,
+// documented programs that the pinned tree compiles), or emitted Go that does not type-check.
+// Either is a violation of the property the template family belongs to, not an infrastructure error.
+type tvCompileError struct {
+	Template string
+	Stage    string // "xgo compile" | "emitted Go type-check"
+	Output   string
+}
+
+func (e *tvCompileError) Error() string {
+	return fmt.Sprintf("%s of template %s failed:\n%s", e.Stage, e.Template, e.Output)
+}
 
 // prepareTV builds the helper, compiles every template of harness/tv/<lower id>/ and
 // assembles the generated package. It returns the number of templates compiled.
@@ -56,7 +71,7 @@ func prepareTV(id string) (int, error) {
 			c.Env = goEnv()
 			c.Dir = hdir // imports of the XGo builtins are resolved in the helper's module
 			if o, err := c.CombinedOutput(); err != nil {
-				return n, fmt.Errorf("compiling template dir %s: %v\n%s", name, err, o)
+				return n, tvErr(name, err, o)
 			}
 			n++
 		case strings.HasSuffix(name, ".xgo"):
@@ -65,7 +80,7 @@ func prepareTV(id string) (int, error) {
 			c.Env = goEnv()
 			c.Dir = hdir
 			if o, err := c.CombinedOutput(); err != nil {
-				return n, fmt.Errorf("compiling template %s: %v\n%s", name, err, o)
+				return n, tvErr(name, err, o)
 			}
 			n++
 		case strings.HasSuffix(name, ".gotmpl"):
@@ -83,7 +98,7 @@ func prepareTV(id string) (int, error) {
 			c.Env = goEnv()
 			c.Dir = hdir
 			if o, err := c.CombinedOutput(); err != nil {
-				return n, fmt.Errorf("compiling template %s as XGo: %v\n%s", name, err, o)
+				return n, tvErr(name, err, o)
 			}
 			os.Remove(xsrc)
 			os.WriteFile(filepath.Join(dir, "ref_"+base+".go"), []byte(strings.ReplaceAll(string(b), "P_", "R_")), 0644)
@@ -130,5 +145,50 @@ func prepareTV(id string) (int, error) {
 	if o, err := tidy.CombinedOutput(); err != nil {
 		return n, fmt.Errorf("go mod tidy in %s: %v\n%s", dir, err, o)
 	}
+	// the emitted Go alone (without reference and harness) must type-check
+	edir := dir + "_emit"
+	os.RemoveAll(edir)
+	os.MkdirAll(edir, 0755)
+	defer os.RemoveAll(edir)
+	for _, f := range outs {
+		b, _ := os.ReadFile(f)
+		os.WriteFile(filepath.Join(edir, filepath.Base(f)), b, 0644)
+	}
+	for _, f := range []string{"go.mod", "go.sum"} {
+		b, _ := os.ReadFile(filepath.Join(dir, f))
+		os.WriteFile(filepath.Join(edir, f), b, 0644)
+	}
+	if msg := typeCheckDir(edir); msg != "" {
+		return n, &tvCompileError{Template: "(all templates of " + lid + ")", Stage: "emitted Go type-check", Output: msg}
+	}
 	return n, nil
+}
+
+// tvErr classifies a helper failure: exit status 1 with a "compile error:" line is the compiler's verdict.
+func tvErr(name string, err error, out []byte) error {
+	if strings.Contains(string(out), "compile error:") {
+		return &tvCompileError{Template: name, Stage: "xgo compile", Output: string(out)}
+	}
+	return fmt.Errorf("compiling template %s: %v\n%s", name, err, out)
+}
+
+// typeCheckDir type-checks the package in dir with go/types (through go/packages); "" if it is well-typed.
+func typeCheckDir(dir string) string {
+	cfg := &packages.Config{Mode: packages.NeedName | packages.NeedFiles | packages.NeedCompiledGoFiles | packages.NeedImports | packages.NeedDeps | packages.NeedTypes | packages.NeedSyntax | packages.NeedTypesInfo, Dir: dir, Env: goEnv()}
+	pkgs, err := packages.Load(cfg, ".")
+	if err != nil {
+		return "" // infrastructure problem: the full load that follows reports it
+	}
+	var errs []string
+	for _, p := range pkgs {
+		for _, e := range p.Errors {
+			if e.Kind == packages.TypeError || e.Kind == packages.ParseError {
+				errs = append(errs, e.Error())
+			}
+		}
+	}
+	if len(errs) > 8 {
+		errs = errs[:8]
+	}
+	return strings.Join(errs, "\n")
 }
